@@ -27,9 +27,8 @@ PatE == { {<<0, 0>>},                                                        \* 
           {<<0, 0>>, <<1, 0>>, <<2, -1>>, <<-1, 2>>},                        \* edge assembly present from the start
           {<<0, 0>>, <<2, -1>>, <<4, -2>>, <<3, -1>>},                       \* two line cells
           {<<0, 0>>, <<1, 0>>, <<4, -2>>},                                   \* hole at <<2,-1>>: factor rule does not fire
-          {<<0, 0>>, <<2, -1>>, <<4, -2>>, <<-1, 2>>},                       \* inner edge filled, outer free
-          {<<0, 0>>, <<2, -1>>, <<4, -2>>, <<-2, 4>>},                       \* outer edge filled, inner free
-          {<<1, 0>>, <<-1, 2>>, <<-2, 4>>} }                                 \* edge assemblies without their sources
+          {<<0, 0>>, <<2, -1>>, <<4, -2>>, <<-1, 2>>} }                      \* inner edge filled, outer free
+\* (outer edge filled / edge assemblies without their sources: among the 255 patterns of the thorough emission)
 \* emission (thorough): all patterns over the line-focused domain
 PatET == PatL
 
@@ -38,7 +37,7 @@ Bound   == TLCGet("level") <= MaxLevel
 \* exhaustive runs: names are part of the state (the invariants about names are checked on every history)
 ViewAll == vars
 \* emission: one node per Vars value (absolute names hidden), act hidden
-ViewEmit == <<pat, sym, [cc \in All |-> <<at[cc].o, at[cc].k, at[cc].ps>>], conv, ecAdded, gflag, lcache>>
+ViewEmit == <<pat, sym, [cc \in All |-> <<at[cc].o, at[cc].k, at[cc].ps, at[cc].fx>>], conv, ecAdded, gflag>>
 Emit      == PrintT(ToJson([lvl |-> TLCGet("level"), from |-> Vars, act |-> act', to |-> Vars']))
 EmitState == PrintT(ToJson([st |-> Vars, obs |-> Obs]))
 ASSUME PrintT(ToJson([config |-> [all |-> SortedCells(All), dom |-> SortedCells(Dom)]]))
@@ -49,4 +48,8 @@ DomR9 == DomRings(9)
 PatCentre == {{<<0, 0>>}}
 NoPatterns == {}
 GoAlways == TRUE
+\* non-vacuity witnesses for the two flows through scaleParamsRelatedToSymmetry: each is an "invariant" that TLC must REFUTE
+PatW == {{<<0, 0>>, <<2, -1>>, <<4, -2>>, <<1, 0>>}}
+NeverCombined   == flow # "combined"          \* add ; solve ; scale ; remove is reachable
+NeverScaledTrip == trip # "ASR"               \* add ; scale ; remove is reachable
 ==========================================================================================================
